@@ -1,6 +1,7 @@
 ----------------------------- MODULE C33 -----------------------------
 (* C33: diagnostics point at the offending source text.
-   C33.cfg   model checking mode, states = inputs: every (template, context, filler <= MAXFILL, variant) of
+   C33.cfg   model checking mode, states = inputs: every (template, context, filler <= MAXFILL, variant) of (quick tier: a fixed
+             sub-grid of contexts and variants)
              spec/front/Diag.tla is emitted as a case (text parts + the layout facts used as evidence);
    C33v.cfg  validation, states = observations: the diagnostics the editor API reported for the variant text
              (o.diags) and for its ASCII baseline (o.base) are checked against the oracle of Diag.tla; every
@@ -11,8 +12,12 @@ VARIABLE st
 Nat10(s) == CASE s = "1" -> 1 [] s = "2" -> 2 [] s = "3" -> 3 [] s = "4" -> 4
 MaxFill == Nat10(IOEnv.MAXFILL)
 
+\* quick tier (QUICK = "1"): five contexts x five variants; thorough: everything
+Quick == IOEnv.QUICK = "1"
+CtxSel == IF Quick THEN {1, 2, 3, 4, 7} ELSE 1..Len(Contexts)
+VarSel == IF Quick THEN {1, 2, 3, 5, 6} ELSE 1..Len(Variants)
 InitG == st \in { [g |-> "case", t |-> t, c |-> c, f |-> f, v |-> v] :
-                  t \in 1..Len(Templates), c \in 1..Len(Contexts), f \in 1..MaxFill, v \in 1..Len(Variants) }
+                  t \in 1..Len(Templates), c \in CtxSel, f \in 1..MaxFill, v \in VarSel }
 NextG == UNCHANGED st
 Emit == st.g = "case" => PrintT(<<"CASE", ToJson(DiagCase(st.t, st.c, st.f, st.v))>>)
 
